@@ -1752,6 +1752,11 @@ VmTrap vm_core_execute(VmState *vm) {
             return trap_error(vm, VM_ERR_INVALID_OPCODE, "Unknown opcode 0x%02x", instr.opcode);
 
         } /* switch */
+#ifdef NANOLANG_VERIF
+        /* Verification hook: with a budget of 2 the core returns right after ONE instruction, before the
+         * loop condition is evaluated again (keeps single-step drivers free of the fall-off-the-end path). */
+        if (nl_verif_fuel == 1) { nl_verif_fuel = 0; return trap_halt(); }
+#endif
     } /* while */
 
     /* Fell off the end of function code without RET or HALT */
